@@ -20,6 +20,7 @@ import (
 	"fmt"
 	"math/rand"
 	"os"
+	"os/exec"
 	"path/filepath"
 	"regexp"
 	"sort"
@@ -478,13 +479,14 @@ type loopObs struct {
 }
 
 type caseOut struct {
-	loops    []loopObs
-	viol     []string
-	what     []string
-	err      error
-	height   uint64
-	included uint64
-	selfStop bool
+	loops      []loopObs
+	viol       []string
+	what       []string
+	err        error
+	height     uint64
+	included   uint64
+	selfStop   bool
+	neverHalts bool
 }
 
 func (o *caseOut) fail(sig, what string) {
@@ -519,6 +521,15 @@ func find(ps []parked, root string) *parked {
 
 func runCase(t *testing.T, c *Case, rootDir string) (out *caseOut) {
 	out = &caseOut{}
+	defer func() {
+		// a loop that never returns, whatever the harness releases, leaves blocked goroutines behind: synctest
+		// panics when the bubble's main goroutine exits.  The hang has been recorded as an oracle failure.
+		if r := recover(); r != nil {
+			if !out.neverHalts {
+				panic(r)
+			}
+		}
+	}()
 	synctest.Test(t, func(t *testing.T) {
 		n, err := newNode(c, rootDir)
 		if err != nil {
@@ -583,7 +594,10 @@ func runCase(t *testing.T, c *Case, rootDir string) (out *caseOut) {
 		select {
 		case <-n.halted:
 		default:
-			out.err = errors.New("node did not halt even after the harness drained every channel and waited 40 s")
+			out.neverHalts = true
+			if len(out.viol) == 0 {
+				out.fail("node-never-halts", "the node did not halt even after the harness drained every channel and waited 40 s")
+			}
 			return
 		}
 		n.invariants(out)
@@ -1022,6 +1036,9 @@ func TestVerif(t *testing.T) {
 			_ = os.WriteFile(filepath.Join(d, "C13-"+c.Scenario+".json"), b, 0o644)
 		}
 	}
+	if e.Tier == "thorough" && e.Replay == "" && os.Getenv("VERIF_NO_CORPUS") == "" && os.Getenv("VERIF_C13_RACE_CHILD") == "" {
+		res.Extra["race_detector"] = raceRun(e, rootDir, res)
+	}
 	if len(scen) > 0 {
 		res.Extra["part_B_scenarios"] = scen
 	}
@@ -1038,4 +1055,57 @@ func TestVerif(t *testing.T) {
 	if err := res.Write(e.Out); err != nil {
 		t.Fatal(err)
 	}
+}
+
+// raceRun (thorough tier): the same test, built with the race detector, on the scenarios and 150 generated cases.
+// Evidence, not proof: the detector sees only the interleavings that happen to occur.
+func raceRun(e *vgen.Env, rootDir string, res *vgen.Result) map[string]interface{} {
+	info := map[string]interface{}{"label": "supporting exploration only - absence of reports is not a proof of race freedom"}
+	bin := filepath.Join(rootDir, "c13.race.test")
+	args := []string{"test", "-race", "-c", "-tags", "verif"}
+	if o := os.Getenv("VERIF_OVERLAY"); o != "" {
+		args = append(args, "-overlay", o)
+	}
+	args = append(args, "-o", bin, ".")
+	cmd := exec.Command("go1.26", args...)
+	cmd.Env = append(os.Environ(), "CGO_ENABLED=1", "GOFLAGS=-mod=mod", "GOPROXY=off", "GOTOOLCHAIN=local")
+	if b, err := cmd.CombinedOutput(); err != nil {
+		info["built"] = false
+		info["why"] = fmt.Sprintf("%v: %s", err, tail(string(b), 600))
+		return info
+	}
+	info["built"] = true
+	out := filepath.Join(rootDir, "race-out")
+	_ = os.MkdirAll(out, 0o755)
+	run := exec.Command(bin, "-test.run", "TestVerif", "-test.timeout", "0")
+	run.Env = append(os.Environ(), "VERIF_C13_RACE_CHILD=1", "VERIF_TIER=quick", "VERIF_N=150", "VERIF_OUT="+out, fmt.Sprintf("VERIF_SEED=%d", e.Seed+31), "GORACE=halt_on_error=0")
+	b, err := run.CombinedOutput()
+	n := strings.Count(string(b), "WARNING: DATA RACE")
+	info["races_reported"] = n
+	var child struct {
+		Evaluations int `json:"evaluations"`
+	}
+	if rb, rerr := os.ReadFile(filepath.Join(out, "result.json")); rerr == nil {
+		_ = json.Unmarshal(rb, &child)
+	}
+	info["cases"] = child.Evaluations
+	if n > 0 {
+		i := strings.Index(string(b), "WARNING: DATA RACE")
+		rep := string(b)[i:]
+		if len(rep) > 3000 {
+			rep = rep[:3000]
+		}
+		res.Violations = append(res.Violations, vgen.Violation{Signature: "data-race-detected", What: "the race detector reported a data race between the background loops", Case: -1,
+			Replay: map[string]interface{}{"seed": e.Seed + 31, "n": 150, "report": rep, "how": "cd harness/c13 && CGO_ENABLED=1 go1.26 test -race -tags verif -run TestVerif ."}})
+	} else if err != nil && child.Evaluations == 0 {
+		info["why"] = fmt.Sprintf("race build did not run: %v: %s", err, tail(string(b), 600))
+	}
+	return info
+}
+
+func tail(s string, n int) string {
+	if len(s) > n {
+		return s[len(s)-n:]
+	}
+	return s
 }
